@@ -309,7 +309,7 @@ func grow(o *GenOpts, n *Node, t *idl.Type, v *idl.Val, depth int) {
 			} else if intKey {
 				ks = strconv.Itoa(rng.Range(0, 40))
 			} else {
-				ks = "s" + []string{"absent", "k1", "no such key", ""}[rng.Intn(4)]
+				ks = "s" + []string{"absent", "k1", "no such key", "", "q\"uote", "back\\slash", "tab\there", "é"}[rng.Intn(8)]
 			}
 			c := n.kid(ks)
 			if !c.Complete && !c.HasChild() {
@@ -428,7 +428,7 @@ func Render(rng *vlib.Rng, root *Node, t *idl.Type) []string {
 				c := n.Kids[k]
 				lit := k
 				if strings.HasPrefix(k, "s") {
-					lit = "\"" + k[1:] + "\""
+					lit = strconv.Quote(k[1:]) // the path syntax takes Go string literals
 				}
 				if c.Complete && !c.HasChild() && rng != nil && rng.Chance(1, 2) {
 					leaves = append(leaves, lit)
